@@ -1,0 +1,230 @@
+/*
+ * Atree - Scalable Arrays and Ordered Maps
+ *
+ * Copyright Flow Foundation
+ *
+ * Licensed under the Apache License, Version 2.0 (the "License");
+ * you may not use this file except in compliance with the License.
+ * You may obtain a copy of the License at
+ *
+ *   http://www.apache.org/licenses/LICENSE-2.0
+ *
+ * Unless required by applicable law or agreed to in writing, software
+ * distributed under the License is distributed on an "AS IS" BASIS,
+ * WITHOUT WARRANTIES OR CONDITIONS OF ANY KIND, either express or implied.
+ * See the License for the specific language governing permissions and
+ * limitations under the License.
+ */
+
+//go:build verif
+
+package atree
+
+//@ # ---------------------------------------------------------------- map_iterator.go, next-key hand-off (C13, C18)
+//@ # The mutable map iterator walks the map by repeatedly asking "the element for this key and the key after it".
+//@ # The canonical order is: position in the digest-sorted element list, then position inside a collision group.
+//@ # Ghost functions name "the first key stored in X"; each is defined by its one-step unfolding, assumed where it is used.
+
+//@ ghost fkE : fn(elem ref) ref
+//@ ghost fkEs : fn(es ref) ref
+//@ ghost fkS : fn(s ref) ref
+//@ ghost gElems : fn(g ref) ref
+//@ ghost nkIn : fn(x ref, key ref) ref
+//@ ghost inNest : fn(x ref, r ref) bool
+
+//@ pred fkEDef(elem element) = (is(elem, *singleElement) ==> fkE(elem) == as(elem, *singleElement).key) &&
+//@      (!is(elem, *singleElement) ==> fkE(elem) == fkEs(gElems(elem)))
+//@ pred fkEsDef(es elements) = (is(es, *hkeyElements) ==> fkEs(es) == ite(len(as(es, *hkeyElements).elems) == 0, nil, fkE(as(es, *hkeyElements).elems[0]))) &&
+//@      (is(es, *singleElements) ==> fkEs(es) == ite(len(as(es, *singleElements).elems) == 0, nil, as(es, *singleElements).elems[0].key))
+//@ pred fkSDef(s MapSlab) = (is(s, *MapDataSlab) ==> fkS(s) == fkEs(as(s, *MapDataSlab).elements)) &&
+//@      (is(s, *MapMetaDataSlab) ==> fkS(s) == fkS(sto[as(s, *MapMetaDataSlab).childrenHeaders[0].slabID]))
+
+//@ iface elementGroup.Elements(storage) (es, err)
+//@   ensures err == nil ==> es == gElems(recv) && es != nil
+//@   ensures err != nil ==> es == nil && categorised(err)
+//@   pure
+
+//@ iface element.getElementAndNextKey(storage, digester, level, hkey, comparator, key) (k, v, nk, err)
+//@   ensures err == nil ==> nk == nkIn(recv, key)
+//@   ensures err == nil && is(recv, *singleElement) ==> nk == nil && k == as(recv, *singleElement).key && v == as(recv, *singleElement).value
+//@   ensures err != nil ==> k == nil && v == nil && nk == nil
+//@   pure
+
+//@ iface elements.getElementAndNextKey(storage, digester, level, hkey, comparator, key) (k, v, nk, err)
+//@   ensures err == nil ==> nk == nkIn(recv, key)
+//@   ensures err != nil ==> k == nil && v == nil && nk == nil
+//@   pure
+
+//@ iface MapSlab.getElementAndNextKey(storage, digester, level, hkey, comparator, key) (k, v, nk, err)
+//@   ensures err == nil ==> nk == nkIn(recv, key)
+//@   ensures err != nil ==> k == nil && v == nil && nk == nil
+//@   pure
+
+//@ # a plain element has no successor inside itself
+//@ func (e *singleElement) getElementAndNextKey(storage, digester, level, hkey, comparator, key) (k, v, nk, err)  serves C13
+//@   requires comparator != nil
+//@   ensures nk == nil
+//@   ensures err == nil ==> k == e.key && v == e.value
+//@   ensures err != nil ==> k == nil && v == nil
+//@   modifies alloc
+
+//@ func firstKeyInElement(storage, elem) (k, err)  serves C13 C18
+//@   requires elem != nil
+//@   assume fkEDef(elem) because "definition of the ghost function fkE (unfolding at this element)"
+//@   ensures[C13] err == nil ==> k == fkE(elem)
+//@   ensures[C18] err != nil ==> k == nil && categorised(err)
+//@   modifies alloc
+
+//@ func firstKeyInElements(storage, elems) (k, err)  serves C13 C18
+//@   requires elems != nil
+//@   assume fkEsDef(elems) because "definition of the ghost function fkEs (unfolding at this element list)"
+//@   assume is(elems, *hkeyElements) ==> hkShape(as(elems, *hkeyElements)) because "tree invariant: element lists hold non-nil elements (C02)"
+//@   assume is(elems, *singleElements) ==> wfSEs(as(elems, *singleElements)) because "tree invariant: element lists hold non-nil elements (C02)"
+//@   ensures[C13] err == nil ==> k == fkEs(elems)
+//@   ensures[C18] err != nil ==> k == nil && categorised(err)
+//@   modifies alloc
+
+//@ func getMapSlab(storage, id) (slab, err)  serves C13 C18
+//@   requires storage != nil
+//@   ensures err == nil ==> slab == sto[id] && isMapSlab(slab)
+//@   ensures[C18] err != nil ==> slab == nil && categorised(err)
+//@   modifies alloc
+
+//@ func firstMapDataSlab(storage, slab) (r, err)  serves C13 C18
+//@   requires storage != nil && isMapSlab(slab)
+//@   assume is(slab, *MapMetaDataSlab) ==> len(as(slab, *MapMetaDataSlab).childrenHeaders) >= 1 because "tree invariant: an index slab has children (C02)"
+//@   assume fkSDef(slab) because "definition of the ghost function fkS (unfolding at this slab)"
+//@   ensures[C13] err == nil ==> r != nil && fkEs(r.elements) == fkS(slab)
+//@   ensures[C13] err == nil && is(slab, *MapDataSlab) ==> r == slab
+//@   ensures[C18] err != nil ==> r == nil && categorised(err)
+//@   modifies alloc
+
+//@ func firstKeyInMapSlab(storage, slab) (k, err)  serves C13 C18
+//@   requires storage != nil && isMapSlab(slab)
+//@   assume forall d *MapDataSlab :: d != nil ==> d.elements != nil because "tree invariant: a leaf has an element list"
+//@   ensures[C13] err == nil ==> k == fkS(slab)
+//@   ensures[C18] err != nil ==> k == nil && categorised(err)
+//@   modifies alloc
+
+//@ # within one digest-sorted element list: the successor of the element at position j is the successor inside that element if
+//@ # there is one (collision group), else the first key of the element at j+1, else nothing (the caller continues with the next slab)
+//@ func (e *hkeyElements) getElementAndNextKey(storage, digester, level, hkey, comparator, key) (k, v, nk, err)  serves C13 C18
+//@   requires wfHk(e) && digester != nil && storage != nil
+//@   ensures[C13] err == nil ==> (forall j :: 0 <= j && j < len(e.hkeys) && e.hkeys[j] == hkey ==>
+//@        nk == ite(nkIn(e.elems[j], key) != nil, nkIn(e.elems[j], key), ite(j + 1 < len(e.elems), fkE(e.elems[j + 1]), nil)))
+//@   ensures[C13] err == nil ==> (forall j :: 0 <= j && j < len(e.hkeys) && e.hkeys[j] == hkey && is(e.elems[j], *singleElement) ==>
+//@        k == as(e.elems[j], *singleElement).key && v == as(e.elems[j], *singleElement).value)
+//@   ensures[C18] err != nil ==> k == nil && v == nil && nk == nil
+//@   modifies alloc
+
+//@ # within a collision list (no digests left): the successor is the next entry of the list
+//@ func (e *singleElements) getElementAndNextKey(storage, digester, level, hkey, comparator, key) (k, v, nk, err)  serves C13 C18
+//@   requires wfSEs(e) && digester != nil && comparator != nil
+//@   ensures[C13] err == nil ==> (forall j :: 0 <= j && j < len(e.elems) && keq(key, e.elems[j].key) && (forall i :: 0 <= i && i < j ==> !keq(key, e.elems[i].key)) ==>
+//@        k == e.elems[j].key && v == e.elems[j].value && nk == ite(j + 1 < len(e.elems), e.elems[j + 1].key, nil))
+//@   ensures[C18] err != nil ==> k == nil && v == nil && nk == nil && categorised(err)
+//@   modifies alloc
+
+//@ # across children of an index slab: the successor is the one inside the routed child if it has one, else the first key of the
+//@ # next child, else nothing
+//@ func (m *MapMetaDataSlab) getElementAndNextKey(storage, digester, level, hkey, comparator, key) (k, v, nk, err)  serves C13 C18
+//@   requires wfMM(m) && storage != nil
+//@   ensures[C13] err == nil ==> (forall j :: 0 <= j && j < len(m.childrenHeaders) && m.childrenHeaders[j].firstKey <= hkey &&
+//@        (j + 1 < len(m.childrenHeaders) ==> hkey < m.childrenHeaders[j + 1].firstKey) ==>
+//@        nk == ite(nkIn(sto[m.childrenHeaders[j].slabID], key) != nil, nkIn(sto[m.childrenHeaders[j].slabID], key),
+//@                  ite(j + 1 < len(m.childrenHeaders), fkS(sto[m.childrenHeaders[j + 1].slabID]), nil)))
+//@   ensures[C18] err != nil ==> k == nil && v == nil && nk == nil
+//@   modifies alloc
+
+//@ # ---- iterator steps
+
+//@ # mutable iterator: the cursor is the next key; a step replaces it by the successor reported by the map; an error leaves it alone
+//@ func (m *OrderedMap) getElementAndNextKey(comparator, hip, key) (k, v, nk, err)  serves C13 C18
+//@   trusted "composition of digest computation, root dispatch and child-callback registration; the hand-off itself is verified on the slab and element functions"
+//@   ensures err != nil ==> k == nil && v == nil && nk == nil
+//@   modifies OrderedMap.parentUpdater, Array.parentUpdater, alloc
+
+//@ func (m *OrderedMap) getNextKey(comparator, hip, key) (nk, err)  serves C13 C18
+//@   trusted "composition of digest computation and root dispatch; the hand-off itself is verified on the slab and element functions"
+//@   ensures err != nil ==> nk == nil
+//@   modifies alloc
+
+//@ func (i *mutableMapIterator) Next() (k, v, err)  serves C13
+//@   requires i.m != nil
+//@   ensures old(i.nextKey) == nil ==> k == nil && v == nil && err == nil && i.nextKey == nil
+//@   ensures err != nil ==> i.nextKey == old(i.nextKey) && k == nil && v == nil
+//@   modifies i.nextKey, OrderedMap.parentUpdater, Array.parentUpdater, alloc
+
+//@ func (i *mutableMapIterator) NextKey() (k, err)  serves C13
+//@   requires i.m != nil
+//@   ensures old(i.nextKey) == nil ==> k == nil && err == nil && i.nextKey == nil
+//@   ensures err == nil ==> k == old(i.nextKey)
+//@   ensures err != nil ==> i.nextKey == old(i.nextKey) && k == nil
+//@   modifies i.nextKey, alloc
+
+//@ func (i *mutableMapIterator) NextValue() (v, err)  serves C13
+//@   requires i.m != nil
+//@   ensures old(i.nextKey) == nil ==> v == nil && err == nil && i.nextKey == nil
+//@   ensures err != nil ==> i.nextKey == old(i.nextKey) && v == nil
+//@   modifies i.nextKey, OrderedMap.parentUpdater, Array.parentUpdater, alloc
+
+//@ # ---- read-only iteration: leaf by leaf through the sibling links, element by element inside a leaf, depth-first into groups
+
+//@ pred ecnt(es elements) = ite(is(es, *hkeyElements), len(as(es, *hkeyElements).elems), len(as(es, *singleElements).elems))
+//@ pred elemAt(es elements, k int) = ite(is(es, *hkeyElements), as(es, *hkeyElements).elems[k], iface(as(es, *singleElements).elems[k]))
+
+//@ iface elements.Count() (n)
+//@   ensures n == ecnt(recv)
+//@   pure
+
+//@ iface elements.Element(k) (el, err)
+//@   ensures k < ecnt(recv) ==> err == nil && el == elemAt(recv, k)
+//@   ensures k >= ecnt(recv) ==> err != nil && el == nil && isUser(err)
+//@   pure
+
+//@ func (e *hkeyElements) Count() (n)  serves C13
+//@   requires len(e.elems) <= 4294967295
+//@   ensures n == len(e.elems)
+//@   pure
+//@ func (e *singleElements) Count() (n)  serves C13
+//@   requires len(e.elems) <= 4294967295
+//@   ensures n == len(e.elems)
+//@   pure
+//@ func (e *hkeyElements) Element(k) (el, err)  serves C13 C18
+//@   requires k >= 0
+//@   ensures k < len(e.elems) ==> err == nil && el == e.elems[k]
+//@   ensures k >= len(e.elems) ==> err != nil && el == nil && isUser(err)
+//@   pure
+//@ func (e *singleElements) Element(k) (el, err)  serves C13 C18
+//@   requires k >= 0
+//@   ensures k < len(e.elems) ==> err == nil && el == iface(e.elems[k])
+//@   ensures k >= len(e.elems) ==> err != nil && el == nil && isUser(err)
+//@   pure
+
+//@ # one step inside a leaf: a plain element is yielded and the cursor moves by one; a group is entered (nested cursor) and the
+//@ # cursor moves past it; from a cursor with no open group, (nil, nil, nil) is returned only at the end of the list (or on
+//@ # entering a group that yields nothing, which non-emptiness of collision groups excludes: not verified here)
+//@ func (i *mapElementIterator) next() (key, value, err)  serves C13 C18
+//@   requires i.elements != nil && 0 <= i.index && (is(i.elements, *hkeyElements) || is(i.elements, *singleElements))
+//@   assume len(as(i.elements, *hkeyElements).elems) <= 4294967295 && len(as(i.elements, *singleElements).elems) <= 4294967295 because "element lists of a slab hold fewer than 2^32 elements (slab size limit)"
+//@   assume forall it *mapElementIterator :: {it.elements} it != nil && allocated(it) ==> it.elements != nil && 0 <= it.index && (is(it.elements, *hkeyElements) || is(it.elements, *singleElements)) because "nested cursors are created by this function with a non-nil element list and index 0"
+//@   assume inNest(i, i) && (i.nestedIterator != nil ==> !inNest(i.nestedIterator, i) && (forall r ref :: {inNest(i.nestedIterator, r)} inNest(i.nestedIterator, r) ==> inNest(i, r))) because "nested cursors form an acyclic chain (each is created fresh by its parent)"
+//@   assume forall s *singleElement :: {s.key} s != nil ==> s.key != nil because "tree invariant: stored elements have non-nil keys"
+//@   ensures[C13] old(i.nestedIterator) != nil && (err != nil || key != nil) ==> i.index == old(i.index)
+//@   ensures[C13] i.elements == old(i.elements)
+//@   ensures[C13] err == nil && key == nil && old(i.nestedIterator) == nil ==> old(i.index) >= ecnt(i.elements) || !is(elemAt(i.elements, old(i.index)), *singleElement)
+//@   ensures[C13] err == nil && old(i.nestedIterator) == nil && old(i.index) < ecnt(i.elements) && is(elemAt(i.elements, old(i.index)), *singleElement) ==>
+//@        key == as(elemAt(i.elements, old(i.index)), *singleElement).key && value == as(elemAt(i.elements, old(i.index)), *singleElement).value && i.index == old(i.index) + 1
+//@   ensures[C13] err == nil && old(i.nestedIterator) == nil && old(i.index) >= ecnt(i.elements) ==> key == nil && i.index == old(i.index)
+//@   ensures[C18] err != nil ==> key == nil && value == nil
+//@   modifies mapElementIterator.index@inNest(i), mapElementIterator.nestedIterator@inNest(i), alloc
+
+//@ # moving to the next leaf: follows the sibling link of the leaf just loaded and starts at its first element
+//@ func (i *readOnlyMapIterator) advance() (err)  serves C13 C18
+//@   requires i.m != nil && i.m.Storage != nil
+//@   ensures[C13] err == nil ==> is(sto[old(i.nextDataSlabID)], *MapDataSlab) && i.nextDataSlabID == as(sto[old(i.nextDataSlabID)], *MapDataSlab).next &&
+//@        i.elemIterator != nil && fresh(i.elemIterator) && i.elemIterator.elements == as(sto[old(i.nextDataSlabID)], *MapDataSlab).elements &&
+//@        i.elemIterator.index == 0 && i.elemIterator.nestedIterator == nil
+//@   ensures[C13] err != nil ==> i.nextDataSlabID == old(i.nextDataSlabID) && i.elemIterator == old(i.elemIterator)
+//@   ensures[C18] err != nil ==> categorised(err)
+//@   modifies i.nextDataSlabID, i.elemIterator, alloc
